@@ -333,4 +333,162 @@ theorem isQuad_functional (s : List Char) (v v' : Nat) (h : C01G.IsQuad s v) (h'
 example : C01G.IsQuad (Text4.ntoa 0xC0000201) 0xC0000201 ∧ Text4.ntoa 0xC0000201 = "192.0.2.1".toList :=
   ⟨printed_is_quad _ (by decide), by decide⟩
 
+/-! ## finding 12: C literals and BSD shorthand values with the independent evaluator
+
+`C01L.IsCLit` takes the value of a literal from `Text4.ofBase` (a left fold with `hexVal`), the
+evaluator the parser model itself runs.  Here the same grammar is stated with the positional
+value `C01G.numVal` (`d₁·bⁿ⁻¹ + … + dₙ` over `C01G.digitVal`) and the digit classes of the
+declarative grammar, and proved to be the same relation. -/
+
+open NV.C01G in
+/-- `0`..`7` -/
+def IsOctDigit (c : Char) : Prop := '0' ≤ c ∧ c ≤ '7'
+
+instance (c : Char) : Decidable (IsOctDigit c) := by unfold IsOctDigit; infer_instance
+
+open NV.C01G in
+/-- a C integer literal as `strtoul(·, ·, 0)` reads it (C11 6.4.4.1 without suffixes): decimal
+    without leading zero, octal with leading `0`, hexadecimal with `0x` / `0X` and at least one
+    digit — with its positional value -/
+inductive IsCLitN : List Char → Nat → Prop
+  | dec (c : Char) (r : List Char) (hc : IsDecDigit c) (h0 : c ≠ '0') (hr : ∀ x ∈ r, IsDecDigit x) :
+      IsCLitN (c :: r) (numVal 10 (c :: r))
+  | oct (r : List Char) (hr : ∀ x ∈ r, IsOctDigit x) : IsCLitN ('0' :: r) (numVal 8 r)
+  | hex (x : Char) (r : List Char) (hx : x = 'x' ∨ x = 'X') (hne : r ≠ []) (hr : ∀ y ∈ r, IsHexDigit y) :
+      IsCLitN ('0' :: x :: r) (numVal 16 r)
+
+theorem isOct_iff (c : Char) : isOct c = true ↔ IsOctDigit c := by
+  simp [isOct, IsOctDigit]
+
+theorem numVal_zero_cons (b : Nat) (r : List Char) : C01G.numVal b ('0' :: r) = C01G.numVal b r := by
+  have : C01G.digitVal '0' = 0 := by decide
+  simp [C01G.numVal, this]
+
+/-- **the two statements of "C literal with value" are the same relation** -/
+theorem isCLit_iff_numVal (l : List Char) (v : Nat) : IsCLit l v ↔ IsCLitN l v := by
+  constructor
+  · intro h
+    cases h with
+    | dec c r hc h0 hr =>
+      have hall : ∀ x ∈ c :: r, C01G.IsHexDigit x := by
+        intro x hx
+        rcases List.mem_cons.mp hx with e | e
+        · subst e; exact C01G.isHex_of_isDec _ ((C01G.isDec_iff _).mp hc)
+        · exact C01G.isHex_of_isDec _ ((C01G.isDec_iff _).mp (hr x e))
+      rw [C01G.ofBase_eq_numVal 10 _ hall]
+      exact IsCLitN.dec c r ((C01G.isDec_iff _).mp hc) h0 (fun x hx => (C01G.isDec_iff _).mp (hr x hx))
+    | oct r hr =>
+      have hall : ∀ x ∈ '0' :: r, C01G.IsHexDigit x := by
+        intro x hx
+        rcases List.mem_cons.mp hx with e | e
+        · subst e; exact Or.inl (by decide)
+        · exact (C01G.isHexC_iff _).mp (AtonG.hex_of_oct _ (hr x e))
+      rw [C01G.ofBase_eq_numVal 8 _ hall, numVal_zero_cons]
+      exact IsCLitN.oct r (fun x hx => (isOct_iff _).mp (hr x hx))
+    | hex x r hx hne hr =>
+      rw [C01G.ofBase_eq_numVal 16 r (fun y hy => (C01G.isHexC_iff _).mp (hr y hy))]
+      exact IsCLitN.hex x r hx hne (fun y hy => (C01G.isHexC_iff _).mp (hr y hy))
+  · intro h
+    cases h with
+    | dec c r hc h0 hr =>
+      have hall : ∀ x ∈ c :: r, C01G.IsHexDigit x := by
+        intro x hx
+        rcases List.mem_cons.mp hx with e | e
+        · subst e; exact C01G.isHex_of_isDec _ hc
+        · exact C01G.isHex_of_isDec _ (hr x e)
+      rw [← C01G.ofBase_eq_numVal 10 _ hall]
+      exact IsCLit.dec c r ((C01G.isDec_iff _).mpr hc) h0 (fun x hx => (C01G.isDec_iff _).mpr (hr x hx))
+    | oct r hr =>
+      have hr' : ∀ x ∈ r, isOct x = true := fun x hx => (isOct_iff _).mpr (hr x hx)
+      have hall : ∀ x ∈ '0' :: r, C01G.IsHexDigit x := by
+        intro x hx
+        rcases List.mem_cons.mp hx with e | e
+        · subst e; exact Or.inl (by decide)
+        · exact (C01G.isHexC_iff _).mp (AtonG.hex_of_oct _ (hr' x e))
+      rw [← numVal_zero_cons, ← C01G.ofBase_eq_numVal 8 _ hall]
+      exact IsCLit.oct r hr'
+    | hex x r hx hne hr =>
+      rw [← C01G.ofBase_eq_numVal 16 r hr]
+      exact IsCLit.hex x r hx hne (fun y hy => (C01G.isHexC_iff _).mpr (hr y hy))
+
+example : IsCLitN "0x7f".toList 127 ∧ IsCLitN "010".toList 8 ∧ IsCLitN "65535".toList 65535 ∧ IsCLitN "0".toList 0 :=
+  ⟨IsCLitN.hex 'x' "7f".toList (Or.inl rfl) (by decide) (by decide),
+   IsCLitN.oct "10".toList (by decide),
+   IsCLitN.dec '6' "5535".toList (by decide) (by decide) (by decide),
+   IsCLitN.oct [] (by decide)⟩
+
+/-- **BSD shorthand (default mode), values by the independent evaluator**: `C01.aton_shorthand`
+    with the parts' values given by `numVal` over the declarative literal grammar -/
+theorem aton_shorthand_numVal (l0 l1 l2 l3 : List Char) (a b c d : Nat)
+    (h0 : IsCLitN l0 a) (h1 : IsCLitN l1 b) (h2 : IsCLitN l2 c) (h3 : IsCLitN l3 d) :
+    (a ≤ 0xffffffff → Text4.aton l0 = some a) ∧
+    (a > 0xffffffff → Text4.aton l0 = none) ∧
+    (a ≤ 255 → b ≤ 0xffffff → Text4.aton (l0 ++ '.' :: l1) = some (a * 16777216 + b)) ∧
+    (a ≤ 255 → b > 0xffffff → Text4.aton (l0 ++ '.' :: l1) = none) ∧
+    (a ≤ 255 → b ≤ 255 → c ≤ 0xffff → Text4.aton (l0 ++ '.' :: (l1 ++ '.' :: l2)) = some (a * 16777216 + b * 65536 + c)) ∧
+    (a ≤ 255 → b ≤ 255 → c > 0xffff → Text4.aton (l0 ++ '.' :: (l1 ++ '.' :: l2)) = none) ∧
+    (a ≤ 255 → b ≤ 255 → c ≤ 255 → d ≤ 255 →
+      Text4.aton (l0 ++ '.' :: (l1 ++ '.' :: (l2 ++ '.' :: l3))) = some (a * 16777216 + b * 65536 + c * 256 + d)) ∧
+    (a ≤ 255 → b ≤ 255 → c ≤ 255 → d > 255 → Text4.aton (l0 ++ '.' :: (l1 ++ '.' :: (l2 ++ '.' :: l3))) = none) ∧
+    (a > 255 → ∀ r, Text4.aton (l0 ++ '.' :: r) = none) :=
+  C01.aton_shorthand l0 l1 l2 l3 a b c d ((isCLit_iff_numVal _ _).mpr h0) ((isCLit_iff_numVal _ _).mpr h1)
+    ((isCLit_iff_numVal _ _).mpr h2) ((isCLit_iff_numVal _ _).mpr h3)
+
+/-- the dotted body of an `inet_aton` text (`AtonG.Body`) over `IsCLitN` -/
+inductive BodyN : List Char → Nat → Prop
+  | one (l0 : List Char) (a : Nat) (h0 : IsCLitN l0 a) (ha : a ≤ 0xffffffff) : BodyN l0 a
+  | two (l0 l1 : List Char) (a b : Nat) (h0 : IsCLitN l0 a) (h1 : IsCLitN l1 b)
+      (ha : a ≤ 255) (hb : b ≤ 0xffffff) : BodyN (l0 ++ '.' :: l1) (a * 16777216 + b)
+  | three (l0 l1 l2 : List Char) (a b c : Nat) (h0 : IsCLitN l0 a) (h1 : IsCLitN l1 b) (h2 : IsCLitN l2 c)
+      (ha : a ≤ 255) (hb : b ≤ 255) (hc : c ≤ 0xffff) :
+      BodyN (l0 ++ '.' :: (l1 ++ '.' :: l2)) (a * 16777216 + b * 65536 + c)
+  | four (l0 l1 l2 l3 : List Char) (a b c d : Nat) (h0 : IsCLitN l0 a) (h1 : IsCLitN l1 b) (h2 : IsCLitN l2 c)
+      (h3 : IsCLitN l3 d) (ha : a ≤ 255) (hb : b ≤ 255) (hc : c ≤ 255) (hd : d ≤ 255) :
+      BodyN (l0 ++ '.' :: (l1 ++ '.' :: (l2 ++ '.' :: l3))) (a * 16777216 + b * 65536 + c * 256 + d)
+
+theorem body_iff_numVal (s : List Char) (v : Nat) : AtonG.Body s v ↔ BodyN s v := by
+  constructor
+  · intro h
+    cases h with
+    | one _ _ h0 ha => exact .one _ _ ((isCLit_iff_numVal _ _).mp h0) ha
+    | two l0 l1 a b h0 h1 ha hb => exact .two l0 l1 a b ((isCLit_iff_numVal _ _).mp h0) ((isCLit_iff_numVal _ _).mp h1) ha hb
+    | three l0 l1 l2 a b c h0 h1 h2 ha hb hc =>
+      exact .three l0 l1 l2 a b c ((isCLit_iff_numVal _ _).mp h0) ((isCLit_iff_numVal _ _).mp h1)
+        ((isCLit_iff_numVal _ _).mp h2) ha hb hc
+    | four l0 l1 l2 l3 a b c d h0 h1 h2 h3 ha hb hc hd =>
+      exact .four l0 l1 l2 l3 a b c d ((isCLit_iff_numVal _ _).mp h0) ((isCLit_iff_numVal _ _).mp h1)
+        ((isCLit_iff_numVal _ _).mp h2) ((isCLit_iff_numVal _ _).mp h3) ha hb hc hd
+  · intro h
+    cases h with
+    | one _ _ h0 ha => exact .one _ _ ((isCLit_iff_numVal _ _).mpr h0) ha
+    | two l0 l1 a b h0 h1 ha hb => exact .two l0 l1 a b ((isCLit_iff_numVal _ _).mpr h0) ((isCLit_iff_numVal _ _).mpr h1) ha hb
+    | three l0 l1 l2 a b c h0 h1 h2 ha hb hc =>
+      exact .three l0 l1 l2 a b c ((isCLit_iff_numVal _ _).mpr h0) ((isCLit_iff_numVal _ _).mpr h1)
+        ((isCLit_iff_numVal _ _).mpr h2) ha hb hc
+    | four l0 l1 l2 l3 a b c d h0 h1 h2 h3 ha hb hc hd =>
+      exact .four l0 l1 l2 l3 a b c d ((isCLit_iff_numVal _ _).mpr h0) ((isCLit_iff_numVal _ _).mpr h1)
+        ((isCLit_iff_numVal _ _).mpr h2) ((isCLit_iff_numVal _ _).mpr h3) ha hb hc hd
+
+/-- **`inet_aton` = the BSD shorthand grammar with independently evaluated parts**, for every
+    string: no NUL, a body of 1-4 C literals (`BodyN`, values by `numVal`), then nothing or one
+    C-locale whitespace character followed by anything -/
+theorem aton_iff_numVal (s : List Char) (v : Nat) :
+    Text4.aton s = some v ↔
+      Char.ofNat 0 ∉ s ∧ ∃ body tail, s = body ++ tail ∧ BodyN body v ∧ AtonG.Tail tail := by
+  rw [AtonG.aton_iff]
+  unfold AtonG.AtonText
+  constructor
+  · rintro ⟨h0, body, tail, e, hb, ht⟩; exact ⟨h0, body, tail, e, (body_iff_numVal _ _).mp hb, ht⟩
+  · rintro ⟨h0, body, tail, e, hb, ht⟩; exact ⟨h0, body, tail, e, (body_iff_numVal _ _).mpr hb, ht⟩
+
+/-- **BSD shorthand at the constructor (default mode)**, `C01b.shorthand_api` over `BodyN` -/
+theorem shorthand_api_numVal (be : Backend) (body : List Char) (v : Nat) (hb : BodyN body v) (ver : Option Nat)
+    (hver : ver = none ∨ ver = some 4) (fl : Nat) (h : C01b.DefaultMode fl) :
+    ipAddress be body ver fl = .ok ⟨4, v⟩ :=
+  C01b.shorthand_api be body v ((body_iff_numVal _ _).mpr hb) ver hver fl h
+
+example : BodyN "0x7f.1".toList 0x7f000001 :=
+  BodyN.two "0x7f".toList "1".toList 127 1 (IsCLitN.hex 'x' "7f".toList (Or.inl rfl) (by decide) (by decide))
+    (IsCLitN.dec '1' [] (by decide) (by decide) (by decide)) (by decide) (by decide)
+
 end NV.C01A2
